@@ -1,6 +1,25 @@
 /-
   C09 — invalid NDP messages are ignored and can never disrupt service.
-  Theorems over every script of messages (any hop limits, any types, any run lengths).
+
+  Theorems over EVERY script of reads — valid messages, messages with a bad hop limit, receive
+  timeouts and read errors in any mix, number and order, from any attempt counter:
+
+    erasure                   the run on a script = the run on the script without its invalid
+                              messages, but for the invalid counter (which lists the erased
+                              messages of the consumed prefix)
+    invalid_never_delivered   (a) everything delivered is a hop-limit-255 message of the script
+    insert_invalid_inert      (b) inserting invalid messages anywhere changes neither deliveries,
+                              nor back-offs, nor the result
+    exhausted_iff / readError_iff / running_iff / result_eq_expected
+                              (c) the result is decided by the erased script: exhausted iff it has
+                              5 consecutive timeouts before any error, …
+    take_consumed / consumed_least   `consumed` is the shortest prefix that decides the result
+    model_eq_expected / holds_model / holds_iff
+                              the oracle of Spec/C09.lean accepts the model's output on every
+                              script, and nothing else
+  The `src_*` theorems state them for the listener of the source (`listenSrc`); they build only
+  while the source's hop-limit branch does not consume a receive attempt.
+  The older theorems over scripts of messages only (`messages_only` …) are kept as special cases.
 -/
 import Corerad.Spec.C09
 import Corerad.Model.Advertiser
@@ -65,13 +84,813 @@ theorem invalid_counted (script : List Read) (h : script.all Spec.C09.isMsg = tr
   unfold listenSrc
   rw [gen_constants.2.2, messages_only _ _ script 0 h]
 
-theorem holds_model (script : List Read) : Spec.C09.holdsMessagesOnly script (listenSrc script) = true := by
+/-- the former oracle (scripts of messages only) on the model -/
+theorem holdsMessagesOnly_model (script : List Read) : Spec.C09.holdsMessagesOnly script (listenSrc script) = true := by
   unfold Spec.C09.holdsMessagesOnly
   by_cases h : script.all Spec.C09.isMsg = true
   · unfold listenSrc
     rw [gen_constants.2.2, messages_only _ _ script 0 h]
     simp [h]
   · simp [h]
+
+open Spec.C09
+
+/-! ### erasure of invalid messages, over arbitrary scripts -/
+
+theorem erase_err (r : List Read) : erase (.err :: r) = .err :: erase r := by
+  simp [erase, isInvalid]
+
+theorem erase_timeout (r : List Read) : erase (.timeout :: r) = .timeout :: erase r := by
+  simp [erase, isInvalid]
+
+theorem erase_valid (k h : Nat) (r : List Read) : erase (.msg k 255 h :: r) = .msg k 255 h :: erase r := by
+  simp [erase, isInvalid]
+
+theorem erase_invalid (k hop h : Nat) (r : List Read) (hh : hop ≠ 255) : erase (.msg k hop h :: r) = erase r := by
+  simp [erase, isInvalid, hh]
+
+theorem erase_append (a b : List Read) : erase (a ++ b) = erase a ++ erase b := by
+  simp [erase]
+
+theorem erase_all_invalid (inv : List Read) (h : inv.all isInvalid = true) : erase inv = [] := by
+  simp only [List.all_eq_true] at h
+  simp only [erase, List.filter_eq_nil_iff]
+  intro a ha; simp [h a ha]
+
+theorem erase_idem (s : List Read) : erase (erase s) = erase s := by
+  simp [erase]
+
+/-- an erased script has no invalid message -/
+theorem erase_no_invalid (s : List Read) : ∀ r ∈ erase s, isInvalid r = false := by
+  intro r hr
+  simp only [erase, List.mem_filter] at hr
+  simpa using hr.2
+
+/-- field by field, generalised over the attempt counter -/
+theorem erasure_fields (n : Nat) (unit : Dur) : ∀ (script : List Read) (i : Nat),
+    (listen n unit false script i).delivered = (listen n unit false (erase script) i).delivered ∧
+    (listen n unit false script i).waits = (listen n unit false (erase script) i).waits ∧
+    (listen n unit false script i).result = (listen n unit false (erase script) i).result ∧
+    (listen n unit false script i).invalid = invalidOf (script.take (consumed n script i)) ∧
+    (listen n unit false (erase script) i).invalid = []
+  | [], _ => by simp [erase, listen, consumed, invalidOf]
+  | .err :: r, i => by simp [erase_err, listen, consumed, invalidOf]
+  | .timeout :: r, i => by
+    have ih := erasure_fields n unit r (i + 1)
+    rw [erase_timeout]
+    by_cases h : i + 1 ≥ n
+    · simp [listen, consumed, h, invalidOf]
+    · simp only [listen, consumed, h, if_false, List.take_succ_cons, invalidOf]
+      exact ⟨ih.1, by rw [ih.2.1], ih.2.2.1, ih.2.2.2.1, ih.2.2.2.2⟩
+  | .msg k hop host :: r, i => by
+    by_cases hh : hop = 255
+    · subst hh
+      have ih := erasure_fields n unit r 0
+      rw [erase_valid]
+      simp only [listen, consumed, ne_eq, not_true_eq_false, if_false, beq_self_eq_true, if_true,
+        List.take_succ_cons, invalidOf, bne_self_eq_false, Bool.false_eq_true]
+      exact ⟨by rw [ih.1], ih.2.1, ih.2.2.1, ih.2.2.2.1, ih.2.2.2.2⟩
+    · have ih := erasure_fields n unit r i
+      have hb : (hop == 255) = false := by simp [hh]
+      rw [erase_invalid k hop host r hh]
+      simp only [listen, consumed, ne_eq, hh, not_false_eq_true, if_true, hb, Bool.false_eq_true, if_false,
+        List.take_succ_cons, invalidOf, bne_iff_ne]
+      exact ⟨ih.1, ih.2.1, ih.2.2.1, by rw [ih.2.2.2.1], ih.2.2.2.2⟩
+
+/-- **Erasure.**  For ANY script (valid messages, invalid messages, timeouts, errors, in any mix,
+    number and order) and any attempt counter: the listener's run on the script is its run on
+    the script with every invalid message removed — same deliveries, same back-offs, same result
+    — except that the invalid counter lists exactly the invalid messages among the reads the
+    run consumed (`consumed`: up to and including the read that stopped it), in order; the run
+    on the erased script counts none (`erased_counts_nothing`). -/
+theorem erasure (n : Nat) (unit : Dur) (script : List Read) (i : Nat) :
+    listen n unit false script i =
+      { listen n unit false (erase script) i with
+        invalid := invalidOf (script.take (consumed n script i)) } := by
+  have h := erasure_fields n unit script i
+  cases hs : listen n unit false script i
+  cases he : listen n unit false (erase script) i
+  simp only [hs, he] at h
+  simp only [ListenOut.mk.injEq]
+  exact ⟨h.1, h.2.2.2.1, h.2.1, h.2.2.1⟩
+
+theorem erased_counts_nothing (n : Nat) (unit : Dur) (script : List Read) (i : Nat) :
+    (listen n unit false (erase script) i).invalid = [] :=
+  (erasure_fields n unit script i).2.2.2.2
+
+theorem delivered_eq (n : Nat) (unit : Dur) : ∀ (script : List Read) (i : Nat),
+    (listen n unit false script i).delivered = validOf (script.take (consumed n script i))
+  | [], _ => by simp [listen, consumed, validOf]
+  | .err :: r, i => by simp [listen, consumed, validOf]
+  | .timeout :: r, i => by
+    by_cases h : i + 1 ≥ n
+    · simp [listen, consumed, h, validOf]
+    · simp only [listen, consumed, h, if_false, List.take_succ_cons, validOf]
+      exact delivered_eq n unit r (i + 1)
+  | .msg k hop host :: r, i => by
+    by_cases hh : hop = 255
+    · subst hh
+      simp only [listen, consumed, ne_eq, not_true_eq_false, if_false, beq_self_eq_true, if_true,
+        List.take_succ_cons, validOf]
+      rw [delivered_eq n unit r 0]
+    · have hb : (hop == 255) = false := by simp [hh]
+      simp only [listen, consumed, ne_eq, hh, not_false_eq_true, if_true, hb, Bool.false_eq_true, if_false,
+        List.take_succ_cons, validOf]
+      exact delivered_eq n unit r i
+
+theorem invalid_eq (n : Nat) (unit : Dur) (script : List Read) (i : Nat) :
+    (listen n unit false script i).invalid = invalidOf (script.take (consumed n script i)) :=
+  (erasure_fields n unit script i).2.2.2.1
+
+theorem waits_eq (n : Nat) (unit : Dur) : ∀ (script : List Read) (i : Nat),
+    (listen n unit false script i).waits = backoffs unit (script.take (consumed n script i)) i
+  | [], _ => by simp [listen, consumed, backoffs]
+  | .err :: r, i => by simp [listen, consumed, backoffs]
+  | .timeout :: r, i => by
+    by_cases h : i + 1 ≥ n
+    · simp [listen, consumed, h, backoffs]
+    · simp only [listen, consumed, h, if_false, List.take_succ_cons, backoffs]
+      rw [waits_eq n unit r (i + 1)]
+  | .msg k hop host :: r, i => by
+    by_cases hh : hop = 255
+    · subst hh
+      simp only [listen, consumed, ne_eq, not_true_eq_false, if_false, beq_self_eq_true, if_true,
+        List.take_succ_cons, backoffs]
+      exact waits_eq n unit r 0
+    · have hb : (hop == 255) = false := by simp [hh]
+      simp only [listen, consumed, ne_eq, hh, not_false_eq_true, if_true, hb, Bool.false_eq_true, if_false,
+        List.take_succ_cons, backoffs]
+      exact waits_eq n unit r i
+
+/-! ### (a) an invalid message is never delivered -/
+
+theorem mem_validOf : ∀ (s : List Read) (d : Nat × Nat), d ∈ validOf s → Read.msg d.1 255 d.2 ∈ s
+  | [], d, h => by simp [validOf] at h
+  | .err :: r, d, h => by
+    simp only [validOf] at h
+    exact List.mem_cons_of_mem _ (mem_validOf r d h)
+  | .timeout :: r, d, h => by
+    simp only [validOf] at h
+    exact List.mem_cons_of_mem _ (mem_validOf r d h)
+  | .msg k hop host :: r, d, h => by
+    by_cases hh : hop = 255
+    · subst hh
+      simp only [validOf, beq_self_eq_true, if_true, List.mem_cons] at h
+      rcases h with h | h
+      · subst h; exact List.mem_cons_self
+      · exact List.mem_cons_of_mem _ (mem_validOf r d h)
+    · have hb : (hop == 255) = false := by simp [hh]
+      simp only [validOf, hb, Bool.false_eq_true, if_false] at h
+      exact List.mem_cons_of_mem _ (mem_validOf r d h)
+
+/-- **(a)** Whatever the script and the attempt counter: everything delivered is a message of the
+    script with hop limit 255 — a message with another hop limit is never delivered. -/
+theorem invalid_never_delivered (n : Nat) (unit : Dur) (script : List Read) (i : Nat) (d : Nat × Nat)
+    (h : d ∈ (listen n unit false script i).delivered) : Read.msg d.1 255 d.2 ∈ script := by
+  rw [delivered_eq] at h
+  exact List.mem_of_mem_take (mem_validOf _ d h)
+
+/-- …in particular a script without a valid message delivers nothing, whatever else it holds -/
+theorem nothing_valid_nothing_delivered (n : Nat) (unit : Dur) (script : List Read) (i : Nat)
+    (h : ∀ k host, Read.msg k 255 host ∉ script) : (listen n unit false script i).delivered = [] := by
+  apply List.eq_nil_iff_forall_not_mem.mpr
+  intro d hd
+  exact h _ _ (invalid_never_delivered n unit script i d hd)
+
+/-! ### (b) invalid messages anywhere change nothing but the invalid counter -/
+
+/-- two scripts that differ only in their invalid messages -/
+theorem erase_eq_inert (n : Nat) (unit : Dur) (s s' : List Read) (i : Nat) (h : erase s = erase s') :
+    (listen n unit false s i).delivered = (listen n unit false s' i).delivered ∧
+    (listen n unit false s i).waits = (listen n unit false s' i).waits ∧
+    (listen n unit false s i).result = (listen n unit false s' i).result := by
+  have a := erasure_fields n unit s i
+  have b := erasure_fields n unit s' i
+  rw [h] at a
+  exact ⟨a.1.trans b.1.symm, a.2.1.trans b.2.1.symm, a.2.2.1.trans b.2.2.1.symm⟩
+
+/-- `InsertInvalid s s'`: `s'` is `s` with any number of invalid messages inserted anywhere -/
+inductive InsertInvalid : List Read → List Read → Prop
+  | nil : InsertInvalid [] []
+  | keep (x : Read) {s s' : List Read} : InsertInvalid s s' → InsertInvalid (x :: s) (x :: s')
+  | ins (x : Read) {s s' : List Read} : isInvalid x = true → InsertInvalid s s' → InsertInvalid s (x :: s')
+
+theorem InsertInvalid.erase_eq {s s' : List Read} (h : InsertInvalid s s') : erase s = erase s' := by
+  induction h with
+  | nil => rfl
+  | keep x _ ih => simp only [erase, List.filter_cons] at ih ⊢; rw [ih]
+  | ins x hx _ ih => simp only [erase, List.filter_cons, hx] at ih ⊢; simpa using ih
+
+/-- **(b)** Inserting any number of invalid messages anywhere into any script (timeouts, errors and
+    valid messages included), at any attempt counter, changes neither what is delivered, nor the
+    back-offs, nor the result: invalid messages can neither cause nor mask a failure, and neither
+    reset nor advance the retry counter. -/
+theorem insert_invalid_inert (n : Nat) (unit : Dur) (s s' : List Read) (i : Nat) (h : InsertInvalid s s') :
+    (listen n unit false s' i).delivered = (listen n unit false s i).delivered ∧
+    (listen n unit false s' i).waits = (listen n unit false s i).waits ∧
+    (listen n unit false s' i).result = (listen n unit false s i).result :=
+  erase_eq_inert n unit s' s i h.erase_eq.symm
+
+/-- the same for one block of invalid messages between any two parts of a script -/
+theorem insert_block_inert (n : Nat) (unit : Dur) (pre inv post : List Read) (i : Nat)
+    (h : inv.all isInvalid = true) :
+    (listen n unit false (pre ++ inv ++ post) i).delivered = (listen n unit false (pre ++ post) i).delivered ∧
+    (listen n unit false (pre ++ inv ++ post) i).waits = (listen n unit false (pre ++ post) i).waits ∧
+    (listen n unit false (pre ++ inv ++ post) i).result = (listen n unit false (pre ++ post) i).result := by
+  apply erase_eq_inert
+  simp [erase_append, erase_all_invalid inv h]
+
+/-! ### (c) what decides the result -/
+
+/-- a run of timeouts that reaches the retry budget exhausts it, at any attempt counter -/
+theorem result_run (n : Nat) (unit : Dur) (post : List Read) : ∀ (k i : Nat), k > 0 → i + k ≥ n →
+    (listen n unit false (List.replicate k Read.timeout ++ post) i).result = .retriesExhausted
+  | 0, _, hk, _ => by omega
+  | k + 1, i, _, h => by
+    simp only [List.replicate_succ, List.cons_append, listen]
+    by_cases h1 : i + 1 ≥ n
+    · simp [h1]
+    · simp only [h1, if_false]
+      exact result_run n unit post k (i + 1) (by omega) (by omega)
+
+/-- reads without an error lead to whatever follows them (at some attempt counter) or exhaust the
+    retries before -/
+theorem result_through (n : Nat) (unit : Dur) (s : List Read)
+    (hs : ∀ j, (listen n unit false s j).result = .retriesExhausted) :
+    ∀ (pre : List Read) (i : Nat), Read.err ∉ pre →
+      (listen n unit false (pre ++ s) i).result = .retriesExhausted
+  | [], i, _ => hs i
+  | .err :: r, _, h => by simp at h
+  | .timeout :: r, i, h => by
+    simp only [List.cons_append, listen]
+    by_cases h1 : i + 1 ≥ n
+    · simp [h1]
+    · simp only [h1, if_false]
+      exact result_through n unit s hs r (i + 1) (fun hm => h (List.mem_cons_of_mem _ hm))
+  | .msg k hop host :: r, i, h => by
+    have hr : Read.err ∉ r := fun hm => h (List.mem_cons_of_mem _ hm)
+    by_cases hh : hop = 255
+    · simp only [List.cons_append, listen, hh, ne_eq, not_true_eq_false, if_false]
+      exact result_through n unit s hs r 0 hr
+    · simp only [List.cons_append, listen, ne_eq, hh, not_false_eq_true, if_true, Bool.false_eq_true, if_false]
+      exact result_through n unit s hs r i hr
+
+/-- exhaustion at attempt counter `i` shows a run of `n` timeouts in the erased script, the `i`
+    timeouts already counted put in front -/
+theorem exhausted_run (n : Nat) (unit : Dur) : ∀ (script : List Read) (i : Nat), i < n →
+    (listen n unit false script i).result = .retriesExhausted →
+    ∃ pre post, List.replicate i Read.timeout ++ erase script = pre ++ List.replicate n Read.timeout ++ post ∧
+      Read.err ∉ pre
+  | [], _, _, h => by simp [listen] at h
+  | .err :: r, _, _, h => by simp [listen] at h
+  | .timeout :: r, i, hi, h => by
+    rw [erase_timeout]
+    have e : List.replicate i Read.timeout ++ Read.timeout :: erase r =
+        List.replicate (i + 1) Read.timeout ++ erase r := by
+      rw [List.replicate_succ']; simp
+    by_cases h1 : i + 1 ≥ n
+    · have : i + 1 = n := by omega
+      exact ⟨[], erase r, by rw [e, this]; simp, by simp⟩
+    · simp only [listen, h1, if_false] at h
+      obtain ⟨pre, post, hp, hn⟩ := exhausted_run n unit r (i + 1) (by omega) h
+      exact ⟨pre, post, by rw [e, hp], hn⟩
+  | .msg k hop host :: r, i, hi, h => by
+    by_cases hh : hop = 255
+    · subst hh
+      simp only [listen, ne_eq, not_true_eq_false, if_false] at h
+      obtain ⟨pre, post, hp, hn⟩ := exhausted_run n unit r 0 (by omega) h
+      simp only [List.replicate_zero, List.nil_append] at hp
+      refine ⟨List.replicate i Read.timeout ++ Read.msg k 255 host :: pre, post, ?_, ?_⟩
+      · rw [erase_valid, hp]; simp
+      · simp only [List.mem_append, List.mem_replicate, List.mem_cons, not_or]
+        exact ⟨by simp, by simp, hn⟩
+    · simp only [listen, ne_eq, hh, not_false_eq_true, if_true, Bool.false_eq_true, if_false] at h
+      rw [erase_invalid k hop host r hh]
+      exact exhausted_run n unit r i hi h
+
+/-- **(c)** The result is `retriesExhausted` iff the script, its invalid messages erased, has `n`
+    consecutive timeouts (not separated by a valid message) before any error. -/
+theorem exhausted_iff (n : Nat) (unit : Dur) (hn : 0 < n) (script : List Read) :
+    (listen n unit false script 0).result = .retriesExhausted ↔
+      ∃ pre post, erase script = pre ++ List.replicate n Read.timeout ++ post ∧ Read.err ∉ pre := by
+  constructor
+  · intro h
+    simpa using exhausted_run n unit script 0 hn h
+  · rintro ⟨pre, post, hp, he⟩
+    rw [(erasure_fields n unit script 0).2.2.1, hp, List.append_assoc]
+    exact result_through n unit _ (fun j => result_run n unit post n j hn (by omega)) pre 0 he
+
+/-- a read error shows an error in the erased script -/
+theorem readError_mem (n : Nat) (unit : Dur) : ∀ (script : List Read) (i : Nat),
+    (listen n unit false script i).result = .readError → Read.err ∈ erase script
+  | [], _, h => by simp [listen] at h
+  | .err :: r, _, _ => by simp [erase_err]
+  | .timeout :: r, i, h => by
+    rw [erase_timeout]
+    by_cases h1 : i + 1 ≥ n
+    · simp [listen, h1] at h
+    · simp only [listen, h1, if_false] at h
+      exact List.mem_cons_of_mem _ (readError_mem n unit r (i + 1) h)
+  | .msg k hop host :: r, i, h => by
+    by_cases hh : hop = 255
+    · subst hh
+      simp only [listen, ne_eq, not_true_eq_false, if_false] at h
+      rw [erase_valid]
+      exact List.mem_cons_of_mem _ (readError_mem n unit r 0 h)
+    · simp only [listen, ne_eq, hh, not_false_eq_true, if_true, Bool.false_eq_true, if_false] at h
+      rw [erase_invalid k hop host r hh]
+      exact readError_mem n unit r i h
+
+/-- a script with an error is stopped by it, unless the retries are exhausted before -/
+theorem stops_at_error (n : Nat) (unit : Dur) (post : List Read) : ∀ (pre : List Read) (i : Nat),
+    (listen n unit false (pre ++ Read.err :: post) i).result = .readError ∨
+    (listen n unit false (pre ++ Read.err :: post) i).result = .retriesExhausted
+  | [], _ => by simp [listen]
+  | .err :: r, _ => by simp [listen]
+  | .timeout :: r, i => by
+    simp only [List.cons_append, listen]
+    by_cases h1 : i + 1 ≥ n
+    · simp [h1]
+    · simp only [h1, if_false]
+      exact stops_at_error n unit post r (i + 1)
+  | .msg k hop host :: r, i => by
+    by_cases hh : hop = 255
+    · simp only [List.cons_append, listen, hh, ne_eq, not_true_eq_false, if_false]
+      exact stops_at_error n unit post r 0
+    · simp only [List.cons_append, listen, ne_eq, hh, not_false_eq_true, if_true, Bool.false_eq_true, if_false]
+      exact stops_at_error n unit post r i
+
+/-- splitting a list at the first occurrence -/
+theorem split_first {α : Type} [DecidableEq α] (a : α) : ∀ (l : List α), a ∈ l →
+    ∃ pre post, l = pre ++ a :: post ∧ a ∉ pre
+  | [], h => by simp at h
+  | x :: r, h => by
+    by_cases hx : x = a
+    · exact ⟨[], r, by simp [hx], by simp⟩
+    · have hr : a ∈ r := by
+        rcases List.mem_cons.mp h with h | h
+        · exact absurd h.symm hx
+        · exact h
+      obtain ⟨pre, post, hp, hn⟩ := split_first a r hr
+      refine ⟨x :: pre, post, by simp [hp], ?_⟩
+      simp only [List.mem_cons, not_or]
+      exact ⟨fun h => hx h.symm, hn⟩
+
+/-- whatever avoids `a` and starts a list is inside the part before the first `a` -/
+theorem prefix_of_first {α : Type} (a : α) : ∀ (x pre post y : List α),
+    pre ++ a :: post = x ++ y → a ∉ pre → a ∉ x → ∃ z, pre = x ++ z
+  | [], pre, _, _, _, _, _ => ⟨pre, rfl⟩
+  | c :: x, [], post, y, h, _, hx => by
+    simp only [List.nil_append, List.cons_append, List.cons.injEq] at h
+    exact absurd (by simp [h.1]) hx
+  | c :: x, p :: pre, post, y, h, hp, hx => by
+    simp only [List.cons_append, List.cons.injEq] at h
+    obtain ⟨z, hz⟩ := prefix_of_first a x pre post y h.2
+      (fun hm => hp (List.mem_cons_of_mem _ hm)) (fun hm => hx (List.mem_cons_of_mem _ hm))
+    exact ⟨z, by simp [h.1, hz]⟩
+
+/-- `l` has `n` consecutive timeouts -/
+def HasRun (n : Nat) (l : List Read) : Prop := ∃ a b, l = a ++ List.replicate n Read.timeout ++ b
+
+/-- **(c)** The result is `readError` iff the erased script has an error and no `n` consecutive
+    timeouts before it. -/
+theorem readError_iff (n : Nat) (unit : Dur) (hn : 0 < n) (script : List Read) :
+    (listen n unit false script 0).result = .readError ↔
+      ∃ pre post, erase script = pre ++ Read.err :: post ∧ Read.err ∉ pre ∧ ¬ HasRun n pre := by
+  constructor
+  · intro h
+    obtain ⟨pre, post, hp, he⟩ := split_first Read.err _ (readError_mem n unit script 0 h)
+    refine ⟨pre, post, hp, he, ?_⟩
+    rintro ⟨a, b, hab⟩
+    have hx : (listen n unit false script 0).result = .retriesExhausted :=
+      (exhausted_iff n unit hn script).mpr ⟨a, b ++ Read.err :: post, by rw [hp, hab]; simp,
+        fun hm => he (by rw [hab]; simp [hm])⟩
+    rw [hx] at h; cases h
+  · rintro ⟨pre, post, hp, he, hr⟩
+    have hs := stops_at_error n unit post pre 0
+    rw [← hp, ← (erasure_fields n unit script 0).2.2.1] at hs
+    rcases hs with hs | hs
+    · exact hs
+    · exfalso
+      obtain ⟨a, b, hab, ha⟩ := (exhausted_iff n unit hn script).mp hs
+      rw [hp, List.append_assoc] at hab
+      have hx : Read.err ∉ a ++ List.replicate n Read.timeout := by
+        simp only [List.mem_append, List.mem_replicate, not_or]
+        exact ⟨ha, by simp⟩
+      obtain ⟨z, hz⟩ := prefix_of_first Read.err (a ++ List.replicate n Read.timeout) pre post b
+        (by rw [hab]; simp) he hx
+      exact hr ⟨a, z, hz⟩
+
+/-- **(c)** The listener is still running iff the erased script has neither an error nor `n`
+    consecutive timeouts. -/
+theorem running_iff (n : Nat) (unit : Dur) (hn : 0 < n) (script : List Read) :
+    (listen n unit false script 0).result = .running ↔
+      Read.err ∉ erase script ∧ ¬ HasRun n (erase script) := by
+  constructor
+  · intro h
+    have he : Read.err ∉ erase script := by
+      intro hm
+      obtain ⟨pre, post, hp, _⟩ := split_first Read.err _ hm
+      have hs := stops_at_error n unit post pre 0
+      rw [← hp, ← (erasure_fields n unit script 0).2.2.1, h] at hs
+      rcases hs with hs | hs <;> cases hs
+    refine ⟨he, ?_⟩
+    rintro ⟨a, b, hab⟩
+    have hx : (listen n unit false script 0).result = .retriesExhausted :=
+      (exhausted_iff n unit hn script).mpr ⟨a, b, hab, fun hm => he (by rw [hab]; simp [hm])⟩
+    rw [hx] at h; cases h
+  · rintro ⟨he, hr⟩
+    cases h : (listen n unit false script 0).result with
+    | running => rfl
+    | retriesExhausted =>
+      obtain ⟨a, b, hab, _⟩ := (exhausted_iff n unit hn script).mp h
+      exact absurd ⟨a, b, hab⟩ hr
+    | readError => exact absurd (readError_mem n unit script 0 h) he
+
+/-- an attempt counter `i` is `i` timeouts already read -/
+theorem result_counter (n : Nat) (unit : Dur) (s : List Read) : ∀ (i j : Nat), j + i < n →
+    (listen n unit false (List.replicate i Read.timeout ++ s) j).result = (listen n unit false s (j + i)).result
+  | 0, j, _ => by simp
+  | i + 1, j, h => by
+    have h1 : ¬ (j + 1 ≥ n) := by omega
+    simp only [List.replicate_succ, List.cons_append, listen, h1, if_false]
+    rw [result_counter n unit s i (j + 1) (by omega)]
+    congr 2; omega
+
+theorem erase_timeouts (i : Nat) : erase (List.replicate i Read.timeout) = List.replicate i Read.timeout := by
+  simp only [erase, List.filter_eq_self, List.mem_replicate]
+  rintro a ⟨_, rfl⟩; rfl
+
+/-- **(c), at any attempt counter** `i < n` (the state inside one `receiveRetry` call after `i`
+    timeouts): exhausted iff the `i` timeouts already counted, followed by the erased script, show
+    `n` consecutive timeouts before any error. -/
+theorem exhausted_iff_at (n : Nat) (unit : Dur) (script : List Read) (i : Nat) (hi : i < n) :
+    (listen n unit false script i).result = .retriesExhausted ↔
+      ∃ pre post, List.replicate i Read.timeout ++ erase script = pre ++ List.replicate n Read.timeout ++ post ∧
+        Read.err ∉ pre := by
+  constructor
+  · exact exhausted_run n unit script i hi
+  · intro h
+    have e : erase (List.replicate i Read.timeout ++ script) = List.replicate i Read.timeout ++ erase script := by
+      rw [erase_append, erase_timeouts]
+    rw [← e] at h
+    have := (exhausted_iff n unit (by omega) _).mpr h
+    rw [result_counter n unit script i 0 (by omega)] at this
+    simpa using this
+
+/-! ### the decidable form of (c) used by the oracle -/
+
+theorem hasTimeoutRun_iff (n : Nat) : ∀ (l : List Read), hasTimeoutRun n l = true ↔ HasRun n l
+  | [] => by
+    simp only [hasTimeoutRun, beq_iff_eq, HasRun]
+    constructor
+    · intro h; exact ⟨[], [], by simp [h]⟩
+    · rintro ⟨a, b, h⟩
+      have := congrArg List.length h
+      simp at this; omega
+  | x :: r => by
+    simp only [hasTimeoutRun, Bool.or_eq_true, List.isPrefixOf_iff_prefix, hasTimeoutRun_iff n r, HasRun]
+    constructor
+    · rintro (⟨t, ht⟩ | ⟨a, b, h⟩)
+      · exact ⟨[], t, by simp [ht]⟩
+      · exact ⟨x :: a, b, by simp [h]⟩
+    · rintro ⟨a, b, h⟩
+      cases a with
+      | nil => exact Or.inl ⟨b, by simp [h]⟩
+      | cons c a =>
+        simp only [List.cons_append, List.cons.injEq] at h
+        exact Or.inr ⟨a, b, h.2⟩
+
+theorem beforeErr_not_mem : ∀ (l : List Read), Read.err ∉ beforeErr l
+  | [] => by simp [beforeErr]
+  | x :: r => by
+    have ih := beforeErr_not_mem r
+    unfold beforeErr at ih ⊢
+    by_cases hx : x = Read.err
+    · simp [hx]
+    · simp only [List.takeWhile_cons, bne_iff_ne, ne_eq, hx, not_false_eq_true, if_true,
+        List.mem_cons, not_or]
+      exact ⟨fun h => hx h.symm, ih⟩
+
+theorem beforeErr_split : ∀ (l : List Read),
+    (Read.err ∉ l ∧ beforeErr l = l) ∨ ∃ post, l = beforeErr l ++ Read.err :: post
+  | [] => Or.inl ⟨by simp, rfl⟩
+  | x :: r => by
+    by_cases hx : x = Read.err
+    · exact Or.inr ⟨r, by simp [beforeErr, hx]⟩
+    · have e : beforeErr (x :: r) = x :: beforeErr r := by
+        simp [beforeErr, hx]
+      rcases beforeErr_split r with ⟨h1, h2⟩ | ⟨post, h⟩
+      · refine Or.inl ⟨?_, by rw [e, h2]⟩
+        simp only [List.mem_cons, not_or]
+        exact ⟨fun h => hx h.symm, h1⟩
+      · exact Or.inr ⟨post, by rw [e, List.cons_append, ← h]⟩
+
+/-- **(c), decidable form.**  The result of the listener on any script is the one the oracle
+    computes from the erased script. -/
+theorem result_eq_expected (n : Nat) (unit : Dur) (hn : 0 < n) (script : List Read) :
+    (listen n unit false script 0).result = expectedResultN n script := by
+  unfold expectedResultN
+  have hne := beforeErr_not_mem (erase script)
+  by_cases h1 : hasTimeoutRun n (beforeErr (erase script)) = true
+  · simp only [h1, if_true]
+    obtain ⟨a, b, hab⟩ := (hasTimeoutRun_iff n _).mp h1
+    have ha : Read.err ∉ a := fun hm => hne (by rw [hab]; simp [hm])
+    apply (exhausted_iff n unit hn script).mpr
+    rcases beforeErr_split (erase script) with ⟨_, h2⟩ | ⟨post, h2⟩
+    · exact ⟨a, b, by rw [← h2, hab], ha⟩
+    · exact ⟨a, b ++ Read.err :: post, by rw [h2, hab]; simp, ha⟩
+  · simp only [h1, Bool.false_eq_true, if_false]
+    have hr : ¬ HasRun n (beforeErr (erase script)) := fun h => h1 ((hasTimeoutRun_iff n _).mpr h)
+    rcases beforeErr_split (erase script) with ⟨h2, h3⟩ | ⟨post, h2⟩
+    · have : (erase script).contains Read.err = false := by
+        simpa using h2
+      simp only [this, Bool.false_eq_true, if_false]
+      rw [h3] at hr
+      exact (running_iff n unit hn script).mpr ⟨h2, hr⟩
+    · have : (erase script).contains Read.err = true := by
+        rw [h2]; simp
+      simp only [this, if_true]
+      exact (readError_iff n unit hn script).mpr ⟨_, post, h2, hne, hr⟩
+
+/-! ### `consumed`: the reads the run depends on -/
+
+theorem consumed_le (n : Nat) : ∀ (s : List Read) (i : Nat), consumed n s i ≤ s.length
+  | [], _ => by simp [consumed]
+  | .err :: r, _ => by simp [consumed]
+  | .timeout :: r, i => by
+    have := consumed_le n r (i + 1)
+    simp only [consumed, List.length_cons]
+    split <;> omega
+  | .msg k hop host :: r, i => by
+    have h0 := consumed_le n r 0
+    have hi := consumed_le n r i
+    simp only [consumed, List.length_cons]
+    split <;> omega
+
+/-- the reads after the consumed prefix do not matter: the whole observation is that of the prefix -/
+theorem take_consumed (n : Nat) (unit : Dur) : ∀ (s : List Read) (i : Nat),
+    listen n unit false (s.take (consumed n s i)) i = listen n unit false s i
+  | [], _ => by simp [consumed]
+  | .err :: r, _ => by simp [consumed, listen]
+  | .timeout :: r, i => by
+    by_cases h : i + 1 ≥ n
+    · simp [consumed, listen, h]
+    · simp only [consumed, h, if_false, List.take_succ_cons, listen]
+      rw [take_consumed n unit r (i + 1)]
+  | .msg k hop host :: r, i => by
+    by_cases hh : hop = 255
+    · subst hh
+      simp only [consumed, beq_self_eq_true, if_true, List.take_succ_cons, listen, ne_eq,
+        not_true_eq_false, if_false]
+      rw [take_consumed n unit r 0]
+    · have hb : (hop == 255) = false := by simp [hh]
+      simp only [consumed, hb, Bool.false_eq_true, if_false, List.take_succ_cons, listen, ne_eq, hh,
+        not_false_eq_true, if_true]
+      rw [take_consumed n unit r i]
+
+/-- …and no shorter prefix decides the result: on every strictly shorter prefix the listener is
+    still running.  With `take_consumed`: `consumed` is the length of the shortest prefix on which
+    a result other than `running` is reached (the whole script if there is none). -/
+theorem consumed_least (n : Nat) (unit : Dur) : ∀ (s : List Read) (i m : Nat), m < consumed n s i →
+    (listen n unit false (s.take m) i).result = .running
+  | [], _, _, h => by simp [consumed] at h
+  | _ :: _, _, 0, _ => by simp [listen]
+  | .err :: r, _, m + 1, h => by simp [consumed] at h
+  | .timeout :: r, i, m + 1, h => by
+    by_cases h1 : i + 1 ≥ n
+    · simp [consumed, h1] at h
+    · simp only [consumed, h1, if_false] at h
+      simp only [List.take_succ_cons, listen, h1, if_false]
+      exact consumed_least n unit r (i + 1) m (by omega)
+  | .msg k hop host :: r, i, m + 1, h => by
+    by_cases hh : hop = 255
+    · subst hh
+      simp only [consumed, beq_self_eq_true, if_true] at h
+      simp only [List.take_succ_cons, listen, ne_eq, not_true_eq_false, if_false]
+      exact consumed_least n unit r 0 m (by omega)
+    · have hb : (hop == 255) = false := by simp [hh]
+      simp only [consumed, hb, Bool.false_eq_true, if_false] at h
+      simp only [List.take_succ_cons, listen, ne_eq, hh, not_false_eq_true, if_true, Bool.false_eq_true, if_false]
+      exact consumed_least n unit r i m (by omega)
+
+/-- a listener that is still running has consumed the whole script -/
+theorem consumed_running (n : Nat) (unit : Dur) : ∀ (s : List Read) (i : Nat),
+    (listen n unit false s i).result = .running → consumed n s i = s.length
+  | [], _, _ => by simp [consumed]
+  | .err :: r, _, h => by simp [listen] at h
+  | .timeout :: r, i, h => by
+    by_cases h1 : i + 1 ≥ n
+    · simp [listen, h1] at h
+    · simp only [listen, h1, if_false] at h
+      simp only [consumed, h1, if_false, List.length_cons, consumed_running n unit r (i + 1) h]
+  | .msg k hop host :: r, i, h => by
+    by_cases hh : hop = 255
+    · subst hh
+      simp only [listen, ne_eq, not_true_eq_false, if_false] at h
+      simp only [consumed, beq_self_eq_true, if_true, List.length_cons, consumed_running n unit r 0 h]
+    · have hb : (hop == 255) = false := by simp [hh]
+      simp only [listen, ne_eq, hh, not_false_eq_true, if_true, Bool.false_eq_true, if_false] at h
+      simp only [consumed, hb, Bool.false_eq_true, if_false, List.length_cons, consumed_running n unit r i h]
+
+/-! ### the oracle accepts the model's output, and nothing else -/
+
+theorem gen_eq_spec :
+    Gen.Listener.retries = Spec.C09.retries ∧ Gen.Listener.backoffUnit = Spec.C09.backoffUnit ∧
+    Gen.Listener.invalidConsumesAttempt = false := by decide
+
+/-- On EVERY script (messages, invalid messages, timeouts, errors in any mix and number) the
+    model's output is the observation the oracle computes from the script. -/
+theorem model_eq_expected (script : List Read) : listenSrc script = expected script := by
+  unfold listenSrc expected consumedPrefix expectedResult
+  rw [gen_eq_spec.1, gen_eq_spec.2.1, gen_eq_spec.2.2]
+  have hd := delivered_eq retries backoffUnit script 0
+  have hi := invalid_eq retries backoffUnit script 0
+  have hw := waits_eq retries backoffUnit script 0
+  have hr := result_eq_expected retries backoffUnit (by decide) script
+  cases h : listen retries backoffUnit false script 0
+  simp only [h] at hd hi hw hr
+  simp only [ListenOut.mk.injEq]
+  exact ⟨hd, hi, hw, hr⟩
+
+/-- the oracle accepts exactly one observation per script -/
+theorem holds_iff (script : List Read) (o : ListenOut) : holds script o = true ↔ o = expected script := by
+  constructor
+  · intro h
+    simp only [holds, deliveredOk, invalidOk, resultOk, waitsOk, Bool.and_eq_true, beq_iff_eq] at h
+    obtain ⟨⟨⟨⟨_, hd⟩, hi⟩, hr⟩, hw⟩ := h
+    cases o
+    simp only [expected, ListenOut.mk.injEq]
+    exact ⟨hd, hi, hw, hr⟩
+  · rintro rfl
+    have h1 : noInvalidDelivered script (expected script) = true := by
+      simp only [noInvalidDelivered, List.all_eq_true, List.contains_iff_mem, expected, consumedPrefix]
+      intro d hd
+      exact List.mem_of_mem_take (mem_validOf _ d hd)
+    simp only [holds, h1, Bool.true_and]
+    simp [deliveredOk, invalidOk, resultOk, waitsOk, expected]
+
+/-- **The model satisfies the oracle on every script.** -/
+theorem holds_model (script : List Read) : holds script (listenSrc script) = true :=
+  (holds_iff script _).mpr (model_eq_expected script)
+
+/-- …and whatever the oracle accepts is the model's output: an implementation that passes the
+    oracle on a script behaved, on that script, exactly as the model. -/
+theorem holds_unique (script : List Read) (o : ListenOut) (h : holds script o = true) :
+    o = listenSrc script := by
+  rw [model_eq_expected]; exact (holds_iff script o).mp h
+
+/-- the oracle is at least as strong as the former one (scripts of messages only) -/
+theorem holds_messagesOnly (script : List Read) (o : ListenOut) (h : holds script o = true) :
+    holdsMessagesOnly script o = true := by
+  rw [holds_unique script o h]; exact holdsMessagesOnly_model script
+
+/-- the note of the driver names a clause iff the oracle rejects -/
+theorem failedClause_iff (script : List Read) (o : ListenOut) :
+    failedClause script o = "" ↔ holds script o = true := by
+  unfold failedClause holds
+  cases noInvalidDelivered script o <;> cases deliveredOk script o <;> cases invalidOk script o <;>
+    cases resultOk script o <;> cases waitsOk script o <;> simp
+
+/-! ### the same for the listener as it is in the source
+
+  `listenSrc` runs with the regenerated constants; `gen_eq_spec` fails to build on a tree where a
+  message with a bad hop limit consumes a receive attempt, or with other retry constants. -/
+
+theorem listenSrc_eq (script : List Read) : listenSrc script = listen retries backoffUnit false script 0 := by
+  unfold listenSrc; rw [gen_eq_spec.1, gen_eq_spec.2.1, gen_eq_spec.2.2]
+
+/-- **Erasure, for the source's listener.** -/
+theorem src_erasure (script : List Read) :
+    listenSrc script = { listenSrc (erase script) with invalid := invalidOf (consumedPrefix script) } := by
+  rw [listenSrc_eq, listenSrc_eq]; exact erasure retries backoffUnit script 0
+
+/-- **(a)** on any script, everything the source's listener delivers is a message of the script
+    with hop limit 255 -/
+theorem src_invalid_never_delivered (script : List Read) (d : Nat × Nat)
+    (h : d ∈ (listenSrc script).delivered) : Read.msg d.1 255 d.2 ∈ script := by
+  rw [listenSrc_eq] at h; exact invalid_never_delivered _ _ script 0 d h
+
+/-- **(b)** any number of invalid messages inserted anywhere into any script: same deliveries,
+    same back-offs, same result -/
+theorem src_insert_invalid_inert (s s' : List Read) (h : InsertInvalid s s') :
+    (listenSrc s').delivered = (listenSrc s).delivered ∧ (listenSrc s').waits = (listenSrc s).waits ∧
+    (listenSrc s').result = (listenSrc s).result := by
+  rw [listenSrc_eq, listenSrc_eq]; exact insert_invalid_inert _ _ s s' 0 h
+
+/-- **(c)** the source's listener gives up iff the script without its invalid messages has five
+    consecutive timeouts before any error.  The counter belongs to one `receiveRetry` call: a
+    delivered message starts a new count, so "consecutive" means not separated by a valid message. -/
+theorem src_exhausted_iff (script : List Read) :
+    (listenSrc script).result = .retriesExhausted ↔
+      ∃ pre post, erase script = pre ++ List.replicate 5 Read.timeout ++ post ∧ Read.err ∉ pre := by
+  rw [listenSrc_eq]; exact exhausted_iff retries backoffUnit (by decide) script
+
+/-- **No number or pattern of invalid messages, interleaved with timeouts or not, makes the
+    listener fail**: if the script without its invalid messages has neither an error nor five
+    consecutive timeouts, the listener is still running at its end, has consumed all of it and
+    has delivered every valid message, in order — whatever invalid messages the script holds. -/
+theorem src_never_fails (script : List Read)
+    (he : Read.err ∉ erase script) (hr : ¬ HasRun 5 (erase script)) :
+    (listenSrc script).result = .running ∧ (listenSrc script).delivered = validOf script ∧
+    (listenSrc script).invalid = invalidOf script := by
+  have h : (listen retries backoffUnit false script 0).result = .running :=
+    (running_iff retries backoffUnit (by decide) script).mpr ⟨he, hr⟩
+  have hc := consumed_running retries backoffUnit script 0 h
+  rw [listenSrc_eq]
+  refine ⟨h, ?_, ?_⟩
+  · rw [delivered_eq, hc, List.take_length]
+  · rw [invalid_eq, hc, List.take_length]
+
+/-! ### the audit's two mis-judged observations are rejected -/
+
+/-- a timeout, an invalid message, a valid one: "retries exhausted" was accepted by the former
+    oracle (it looked at scripts of messages only); it is rejected -/
+example : holdsMessagesOnly [.timeout, .msg 0 64 2, .msg 0 255 1] { result := .retriesExhausted } = true ∧
+    holds [.timeout, .msg 0 64 2, .msg 0 255 1] { result := .retriesExhausted } = false := by decide
+
+/-- the same script with the invalid message delivered: accepted before, rejected now (by the
+    first clause) -/
+example :
+    holdsMessagesOnly [.timeout, .msg 0 64 2, .msg 0 255 1]
+      { delivered := [(0, 2), (0, 1)], waits := [0], result := .running } = true ∧
+    holds [.timeout, .msg 0 64 2, .msg 0 255 1]
+      { delivered := [(0, 2), (0, 1)], waits := [0], result := .running } = false ∧
+    noInvalidDelivered [.timeout, .msg 0 64 2, .msg 0 255 1]
+      { delivered := [(0, 2), (0, 1)], waits := [0], result := .running } = false := by decide
+
+/-- the one observation accepted on that script; each clause rejects on its own -/
+example :
+    holds [.timeout, .msg 0 64 2, .msg 0 255 1]
+      { delivered := [(0, 1)], invalid := [0], waits := [0], result := .running } = true ∧
+    deliveredOk [.timeout, .msg 0 64 2, .msg 0 255 1]
+      { delivered := [], invalid := [0], waits := [0], result := .running } = false ∧
+    invalidOk [.timeout, .msg 0 64 2, .msg 0 255 1]
+      { delivered := [(0, 1)], invalid := [], waits := [0], result := .running } = false ∧
+    resultOk [.timeout, .msg 0 64 2, .msg 0 255 1]
+      { delivered := [(0, 1)], invalid := [0], waits := [0], result := .readError } = false ∧
+    waitsOk [.timeout, .msg 0 64 2, .msg 0 255 1]
+      { delivered := [(0, 1)], invalid := [0], waits := [50 * ms], result := .running } = false := by decide
+
+/-! ### non-vacuity: one mixed script
+
+  invalid, timeout, invalid, timeout, VALID, timeout, invalid, timeout, timeout, invalid, timeout,
+  timeout (the fifth in a row: invalid messages in between do not restart the count, the valid
+  message did), then a valid message and an error that are never read. -/
+
+def mixed : List Read :=
+  [.msg 0 64 2, .timeout, .msg 1 7 3, .timeout, .msg 0 255 1, .timeout, .msg 2 0 0, .timeout, .timeout,
+   .msg 3 1 4, .timeout, .timeout, .msg 0 255 9, .err]
+
+/-- `erasure`, `erased_counts_nothing`, `delivered_eq`, `invalid_eq`, `waits_eq`, `take_consumed`,
+    `consumed_least` on the mixed script -/
+example :
+    erase mixed = [.timeout, .timeout, .msg 0 255 1, .timeout, .timeout, .timeout, .timeout, .timeout,
+                   .msg 0 255 9, .err] ∧
+    consumed 5 mixed 0 = 12 ∧
+    listenSrc mixed = { delivered := [(0, 1)], invalid := [0, 1, 2, 3],
+                        waits := [0, 50 * ms, 0, 50 * ms, 100 * ms, 150 * ms, 200 * ms],
+                        result := .retriesExhausted } ∧
+    listenSrc (erase mixed) = { delivered := [(0, 1)], invalid := [],
+                                waits := [0, 50 * ms, 0, 50 * ms, 100 * ms, 150 * ms, 200 * ms],
+                                result := .retriesExhausted } ∧
+    invalidOf (mixed.take 12) = [0, 1, 2, 3] ∧ invalidOf mixed = [0, 1, 2, 3] ∧
+    validOf (mixed.take 12) = [(0, 1)] ∧ validOf mixed = [(0, 1), (0, 9)] ∧
+    listenSrc (mixed.take 12) = listenSrc mixed ∧ (listenSrc (mixed.take 11)).result = .running ∧
+    holds mixed (listenSrc mixed) = true := by decide
+
+/-- (c): the witnesses of `src_exhausted_iff` on the mixed script; with a valid message inside the
+    run of five there is no exhaustion but the read error (`readError_iff`), and without the
+    error the listener is still running (`running_iff`, `src_never_fails`) -/
+example :
+    (erase mixed = [.timeout, .timeout, .msg 0 255 1] ++ List.replicate 5 Read.timeout ++ [.msg 0 255 9, .err] ∧
+      Read.err ∉ [Read.timeout, .timeout, .msg 0 255 1]) ∧
+    (listenSrc [.timeout, .timeout, .msg 1 3 3, .timeout, .timeout, .msg 0 255 1, .timeout, .msg 1 3 3, .err,
+                .timeout, .timeout, .timeout, .timeout, .timeout]).result = .readError ∧
+    hasTimeoutRun 5 [.timeout, .timeout, .timeout, .timeout, .msg 0 255 1, .timeout] = false ∧
+    (listenSrc [.timeout, .timeout, .msg 1 3 3, .timeout, .timeout, .msg 0 255 1, .timeout, .msg 1 3 3]).result
+      = .running ∧
+    (listenSrc [.timeout, .timeout, .msg 1 3 3, .timeout, .timeout, .msg 0 255 1, .timeout, .msg 1 3 3]).delivered
+      = [(0, 1)] := by decide
+
+/-- (b): invalid messages inserted at the head, between timeouts and before the error of a script
+    (`InsertInvalid`, `src_insert_invalid_inert`); with `invalidConsumesAttempt = true` — the
+    defect F-6 — the same insertion turns a surviving listener into a failed one -/
+example :
+    InsertInvalid [.timeout, .timeout, .timeout, .msg 0 255 1, .err]
+      [.msg 0 1 1, .timeout, .msg 0 2 2, .msg 0 3 3, .timeout, .timeout, .msg 0 255 1, .msg 1 4 4, .err] ∧
+    (listenSrc [.msg 0 1 1, .timeout, .msg 0 2 2, .msg 0 3 3, .timeout, .timeout, .msg 0 255 1, .msg 1 4 4, .err]).result
+      = .readError ∧
+    (listenSrc [.msg 0 1 1, .timeout, .msg 0 2 2, .msg 0 3 3, .timeout, .timeout, .msg 0 255 1, .msg 1 4 4, .err]).delivered
+      = [(0, 1)] ∧
+    (listen 5 (50 * ms) true
+      [.msg 0 1 1, .timeout, .msg 0 2 2, .msg 0 3 3, .timeout, .timeout, .msg 0 255 1, .msg 1 4 4, .err] 0).result
+      = .retriesExhausted ∧
+    (listen 5 (50 * ms) true
+      [.msg 0 1 1, .timeout, .msg 0 2 2, .msg 0 3 3, .timeout, .timeout, .msg 0 255 1, .msg 1 4 4, .err] 0).delivered
+      = [] := by
+  refine ⟨?_, by decide, by decide, by decide, by decide⟩
+  exact .ins _ rfl (.keep _ (.ins _ rfl (.ins _ rfl (.keep _ (.keep _ (.keep _ (.ins _ rfl (.keep _ .nil))))))))
 
 /-- Invalid messages are inert on an advertising interface: a message with a bad hop limit, or
     of a type other than router solicitation, never produces an RA request; only router
@@ -129,5 +948,6 @@ example :
     (listen 5 (50 * ms) true script 0).result = .retriesExhausted ∧
     (listen 5 (50 * ms) true script 0).delivered = [] := by
   decide
+
 
 end Corerad.Props.C09
